@@ -23,6 +23,23 @@ theorem less_is_mathematical_comparison (ib : Nat) (hib : 0 < ib) (A B : CType) 
     less ib A B a b = true ↔ a < b := by
   rw [less_exact ib hib A B hA hB a b ha hb]; simp
 
+/-- `IncreaseSumInternal<S>(a, b)`, the overload for types of which at least one is signed (`A` is the promoted `S`;
+the statement holds for any `B`, signed or not): exact sum or nothing; the subtraction `max - a` and the addition
+`a + b` never overflow. -/
+theorem increaseSumInternal_mixed_exact (ib : Nat) (hib : 0 < ib) (S B : CType) (hS : 0 < S.bits) (hB : 0 < B.bits)
+    (a b : Int) (ha : S.inRange a) (hb : B.inRange b) :
+    incMixed ib S (promote ib S) B a b =
+      .ok (if 0 ≤ a ∧ 0 ≤ b ∧ a + b ≤ S.maxVal then some (a + b) else none) :=
+  incMixed_exact ib hib S B hS hB a b ha hb
+
+/-- `IncreaseSumInternal<S>(a, b)`, the overload for two unsigned promoted types (then `A = S`): the wrapped sum
+passes both tests exactly when the mathematical sum fits `S`. -/
+theorem increaseSumInternal_unsigned_exact (ib : Nat) (S B : CType) (hS : 0 < S.bits) (hB : 0 < B.bits)
+    (hSi : ib ≤ S.bits) (hBi : ib ≤ B.bits) (uS : S.signed = false) (uB : B.signed = false) (a b : Int)
+    (ha : S.inRange a) (hb : B.inRange b) :
+    incUnsigned ib S S B a b = .ok (if a + b ≤ S.maxVal then some (a + b) else none) :=
+  incUnsigned_exact ib S B hS hB hSi hBi uS uB a b ha hb
+
 /-- Two-argument `IncreaseSum(s, t)` (whichever `IncreaseSumInternal` overload the types select): the exact sum
 when both arguments are non-negative and the sum fits `S`, nothing otherwise; never undefined behaviour. -/
 theorem increaseSum2_exact (ib : Nat) (hib : 0 < ib) (S T : CType) (hS : 0 < S.bits) (hT : 0 < T.bits) (s t : Int)
